@@ -305,12 +305,14 @@ pub fn c03(rep: &mut Report) {
         agg
     });
     rep.agg.merge(a);
-    let ev = rep.agg.get("l0_pairs") + rep.agg.get("l1_scenarios");
+    crate::clilegs::run(rep, crate::clilegs::Which::C03, false);
+    crate::clilegs::run(rep, crate::clilegs::Which::C03, true);
+    let ev = rep.agg.get("l0_pairs") + rep.agg.get("l1_scenarios") + rep.agg.get("cli_scenarios") + rep.agg.get("cli_blockdev_scenarios");
     rep.set("evaluations", json!(ev));
     rep.set("distinct_nontrivial", json!(rep.agg.distinct_count("l0_oplogs") + rep.agg.distinct_count("l1_outcomes")));
     rep.set("exhaustive", json!(true));
     rep.set("universes", lab.describe());
-    rep.set("rule", json!(format!("L0: all (prior layout, target) pairs with <= {n0} chunks over 3 identities (+junk, +gap) and all 27 size assignments from {{1,2,3}}, real strip/reorder_ops/reorder_in_place/feed on an instrumented device; L1: full library flow (real chunker scans the prior output) for all sources of <= {n1} words x all prior outputs of <= {n1} letters over words/junk/half word/colliding junk, per universe and hash length; distinct_nontrivial = distinct device operation logs (read/write sequences) observed")));
+    rep.set("rule", json!(format!("L0: all (prior layout, target) pairs with <= {n0} chunks over 3 identities (+junk, +gap) and all 27 size assignments from {{1,2,3}}, real strip/reorder_ops/reorder_in_place/feed on an instrumented device; L1: full library flow (real chunker scans the prior output) for all sources of <= {n1} words x all prior outputs of <= {n1} letters over words/junk/half word/colliding junk, per universe and hash length; distinct_nontrivial = distinct device operation logs (read/write sequences) observed; CLI leg: the real clone_cmd --seed-output on files (and through the block device path, hook H1) for sources/priors of <= 2/3 letters, local and HTTP archives")));
     rep.assume("A1: no truncated-hash collision inside a scenario (asserted per scenario)");
     rep.assume("chunk counts above the bounds and data outside the word alphabets are not covered");
 }
@@ -371,11 +373,12 @@ pub fn c02(rep: &mut Report) {
         agg
     });
     rep.agg.merge(a);
-    rep.set("evaluations", json!(rep.agg.get("scenarios")));
+    crate::clilegs::run(rep, crate::clilegs::Which::C02, false);
+    rep.set("evaluations", json!(rep.agg.get("scenarios") + rep.agg.get("cli_scenarios")));
     rep.set("distinct_nontrivial", json!(rep.agg.distinct_count("outcomes")));
     rep.set("exhaustive", json!(true));
     rep.set("universes", lab.describe());
-    rep.set("rule", json!(format!("library leg: all sources of <= {} words x all single seeds of <= {n} letters and all ordered seed pairs of <= 2 letters each (letters: source words, junk words, a half word, a size-colliding junk word) + empty seed set + seed = source, per universe and hash length 64/8/4; distinct_nontrivial = distinct (write log, fetch list) outcomes", if thorough { 4 } else { 3 })));
+    rep.set("rule", json!(format!("CLI leg: the real clone_cmd with --seed files for all sources of <= 2/3 words x seeds of <= 2/3 letters and seed pairs, local and HTTP archives; library leg: all sources of <= {} words x all single seeds of <= {n} letters and all ordered seed pairs of <= 2 letters each (letters: source words, junk words, a half word, a size-colliding junk word) + empty seed set + seed = source, per universe and hash length 64/8/4; distinct_nontrivial = distinct (write log, fetch list) outcomes", if thorough { 4 } else { 3 })));
     rep.assume("A1: no truncated-hash collision inside a scenario");
 }
 
@@ -475,7 +478,11 @@ fn c06_c13(rep: &mut Report, which: &str) {
 
 pub fn c06(rep: &mut Report) {
     c06_c13(rep, "C06");
-    rep.set("rule", json!("library leg: recording ArchiveReader around the in-memory archive; all sources x {prior outputs used as seed, existing outputs not used as seed, single seeds, prior+seed combinations} over the word universes; oracle: requested chunk ranges == stored ranges of (source chunks) - (chunks the reference chunker finds in seeds / prior output), as a multiset, everything else read lies inside the header; distinct_nontrivial = distinct (write log, fetch list) outcomes"));
+    crate::clilegs::run(rep, crate::clilegs::Which::C06, false);
+    crate::clilegs::run(rep, crate::clilegs::Which::C06, true);
+    let ev = rep.agg.get("scenarios") + rep.agg.get("cli_scenarios") + rep.agg.get("cli_blockdev_scenarios");
+    rep.set("evaluations", json!(ev));
+    rep.set("rule", json!("CLI legs: the real clone_cmd against the logging loopback HTTP server for new / existing / in-place outputs and through the block device path (hook H1), oracle: Range requests == two header reads + maximal runs of the expected missing descriptors; library leg: recording ArchiveReader around the in-memory archive; all sources x {prior outputs used as seed, existing outputs not used as seed, single seeds, prior+seed combinations} over the word universes; oracle: requested chunk ranges == stored ranges of (source chunks) - (chunks the reference chunker finds in seeds / prior output), as a multiset, everything else read lies inside the header; distinct_nontrivial = distinct (write log, fetch list) outcomes"));
 }
 pub fn c13(rep: &mut Report) {
     c06_c13(rep, "C13");
